@@ -2,6 +2,8 @@
 pub struct Context {
     pub mode: Mode,
     pub break_suppressed: bool,
+    /// Whether the expression to convert directly follows a `#` in markup or math.
+    pub after_hash: bool,
 }
 
 impl Context {
@@ -12,6 +14,13 @@ impl Context {
     pub fn with_mode_if(&self, mode: Mode, cond: bool) -> Self {
         Self {
             mode: if cond { mode } else { self.mode },
+            ..*self
+        }
+    }
+
+    pub fn with_after_hash(&self, after_hash: bool) -> Self {
+        Self {
+            after_hash,
             ..*self
         }
     }
